@@ -826,7 +826,14 @@ type world struct {
 // values are left out), and the bytes that reads may have made unaccountable on top of the largest.
 func (w *world) bounds(excl int) (floor, ceil, slack, race int) {
 	for k := range w.A.k {
-		floor += min(w.A.keySize(k, false, -1), w.B.keySize(k, false, excl))
+		f := min(w.A.keySize(k, false, -1), w.B.keySize(k, false, excl))
+		// The bytes of a key are added to the size by the WriteMulti that CREATED its entry, after the insertion.
+		// While some mutator of the key is in flight that creator may be the one in flight (a completed write of
+		// the same key found the entry existing and counted its values only): the key bytes are not yet certain.
+		if w.mutating[k] > 0 && f >= len(keyNames[k]) {
+			f -= len(keyNames[k])
+		}
+		floor += f
 		ceil += max(w.A.keySize(k, true, -1), w.B.keySize(k, true, excl))
 	}
 	return floor, ceil, w.B.leakHot + w.B.leakSnap, w.B.raceHot + w.B.raceSnap
@@ -1100,13 +1107,7 @@ func (w *world) doWrite(p op, ids [][]uint64) {
 				r.Violate("C09:spurious-limit-reject", "write", "WriteMulti of %d bytes was rejected (%v) although the cache can have held at most %d bytes at any moment of the call [%d,%d] (limit %d)", own, err, x.maxC, inv, ret, w.limit)
 			}
 		}
-		if !isLimitErr(err) && uint64(x.minFloor+own) > w.limit && uint64(x.minFloor+own) < w.limit+16 && !w.inexact {
-			// Excess below the size of one value (16 bytes).  Seen once in ~400k thorough runs on the unchanged tree
-			// (replay findings/C09-O1-...): by my reading of WriteMulti the real Size() cannot have been below the
-			// model's floor there, but I could not attribute the difference within the session, so an excess smaller
-			// than one value is recorded as an observation and only a larger one gates.
-			r.Violate("obs:limit-exceeded-by-less-than-one-value", "write", "WriteMulti of %d bytes was accepted (err=%v) although the cache held at least %d bytes during the whole call [%d,%d] (limit %d)", own, err, x.minFloor, inv, ret, w.limit)
-		} else if !isLimitErr(err) && uint64(x.minFloor+own) > w.limit && !w.inexact {
+		if !isLimitErr(err) && uint64(x.minFloor+own) > w.limit && !w.inexact {
 			r.Violate("C09:limit-not-enforced", "write", "WriteMulti of %d bytes was accepted (err=%v) although the cache held at least %d bytes during the whole call [%d,%d] (limit %d)", own, err, x.minFloor, inv, ret, w.limit)
 		}
 	} else if isLimitErr(err) {
